@@ -107,8 +107,15 @@ def run(ctx):
         c = lambda n: P.content_xml('<text:p>OBJ-%d</text:p>' % n); s = P.styles_xml()
         body = ''.join('<text:p><draw:frame><draw:object xlink:href="./Object %d"/></draw:frame></text:p>' % n for n in nums)
         members = [('content.xml', P.content_xml(body), 'text/xml'), ('styles.xml', s, 'text/xml'), ('meta.xml', P.meta_xml(), 'text/xml')]
-        extra_files = {}; with_settings = set()
+        extra_files = {}; with_settings = set(); mathml = set()
         for n in nums:
+            if i % 4 == 2 and n == nums[0]:
+                # a formula as office suites write it: content.xml is plain MathML (no office:document-content around it), no styles.xml
+                fm = '<?xml version="1.0" encoding="UTF-8"?>\n<math xmlns="http://www.w3.org/1998/Math/MathML"><semantics><mi>OBJ-%d</mi><annotation encoding="StarMath 5.0">x</annotation></semantics></math>' % n
+                members += [('Object %d/' % n, '', PC.MIMES.get('formula', 'application/vnd.oasis.opendocument.formula')), ('Object %d/content.xml' % n, fm, 'text/xml'),
+                            ('Object %d/settings.xml' % n, P.settings_xml(), 'text/xml')]
+                mathml.add(n); with_settings.add(n); extra_files['Object %d/content.xml' % n] = (fm.encode(), 'text/xml')
+                continue
             members += [('Object %d/' % n, '', C03.MIMEC if n % 2 else PC.MIMES['sheet']), ('Object %d/content.xml' % n, c(n), 'text/xml')]
             if not (i % 3 == 1 and n == nums[0]):           # every third package: an object written without a styles.xml of its own
                 members.append(('Object %d/styles.xml' % n, s, 'text/xml'))
@@ -129,9 +136,10 @@ def run(ctx):
         doc = load(io.BytesIO(src))
         msx = '(' + ' '.join('(%s %s)' % (sx_str(p), sx_str(mt or '')) for p, mt in sp['manifest']) + ')'
         loaded_objs = sorted(k.folder[1:] + '/' for k in doc.childobjects)
-        model_objs = sorted(p for p, mt in sp['manifest'] if d.call('pkg_classify', msx, sx_str(p)) == 'object')
+        fsx = P.foreign_folders_sx(sp)
+        model_objs = sorted(p for p, mt in sp['manifest'] if d.call('pkg_classify', msx, fsx, sx_str(p)) == 'object')
         ctx.corr('load(): which manifest entries are embedded objects', [p for p, _ in sp['manifest']], model_objs, loaded_objs)
-        model_extra = sorted(p for p, mt in sp['manifest'] if d.call('pkg_classify', msx, sx_str(p)) == 'extra')
+        model_extra = sorted(p for p, mt in sp['manifest'] if d.call('pkg_classify', msx, fsx, sx_str(p)) == 'extra')
         ctx.corr('load(): which manifest entries are opaque members', [p for p, _ in sp['manifest']], model_extra, sorted(o.filename for o in doc._extra))
         out = io.BytesIO(); doc.write(out)
         pk = P.read_package(out.getvalue())
@@ -144,7 +152,7 @@ def run(ctx):
         for n in nums:
             folder = 'Object %d/' % n
             got = pk['members'].get(folder + 'content.xml', b'')
-            if ('OBJ-%d<' % n).encode() not in got or dict(pk['manifest']).get(folder) != dict(sp['manifest']).get(folder) or folder + 'styles.xml' not in pk['members']:
+            if ('OBJ-%d<' % n).encode() not in got or dict(pk['manifest']).get(folder) != dict(sp['manifest']).get(folder) or (n not in mathml and folder + 'styles.xml' not in pk['members']):
                 ctx.violation('reference-does-not-resolve', dict(case, object=n), {'content': got[-120:].decode('utf-8', 'replace'), 'manifest': dict(pk['manifest']).get(folder)},
                               'the same sub-document in ' + folder, {'order': 'loaded'})
         for n in sorted(with_settings):
